@@ -37,6 +37,7 @@ type Program struct {
 	altSolvers    []string
 	initAllow     map[string]bool
 	zeroGlobals   map[string]bool
+	setGlobals    map[string]*ssa.Function
 	harnessFiles  map[string]bool
 	mapOrders     bool
 	boundOverride map[string]int
@@ -162,6 +163,9 @@ func (P *Program) uninitGlobal(m *M, g *ssa.Global, et types.Type) Value {
 	if P.zeroGlobals[name] {
 		return zero(et)
 	}
+	if f, ok := P.setGlobals[name]; ok {
+		return m.call(f, nil)
+	}
 	if _, ok := et.Underlying().(*types.Struct); ok {
 		// structs are only ever addressed (e.g. time.utcLoc); their zero value is what a not yet used value looks like
 		P.uninitRead.Store(name, true)
@@ -253,7 +257,7 @@ func load(property string, tier string, extraOverlay map[string]string) *loaded 
 	}
 	overlay := map[string][]byte{}
 	P := &Program{repoPath: repoPath, rtPath: repoPath + "/internal/zzverifrt", tier: tier, known: map[string]bool{}, initAllow: map[string]bool{},
-		zeroGlobals: map[string]bool{}, harnessFiles: map[string]bool{}, boundOverride: map[string]int{}, property: property, pkgs: map[string]*ssa.Package{}}
+		zeroGlobals: map[string]bool{}, setGlobals: map[string]*ssa.Function{}, harnessFiles: map[string]bool{}, boundOverride: map[string]int{}, property: property, pkgs: map[string]*ssa.Package{}}
 	rtFiles, _ := filepath.Glob(filepath.Join(verifDir, "models", "zzverifrt", "*.go"))
 	var fds []*fileDirectives
 	included := map[string]bool{}
@@ -374,7 +378,19 @@ func load(property string, tier string, extraOverlay map[string]string) *loaded 
 			}
 			if !fd.common {
 				// the directives of the file that defines the harness function, then those of the registering file
-				if def := byVirt[P.prog.Fset.Position(fn.Pos()).Filename]; def != nil && def != fd && !def.common {
+				def := byVirt[P.prog.Fset.Position(fn.Pos()).Filename]
+				if def == nil {
+					def = fd
+				}
+				// includes of the defining file first, then the defining file, then the registering file
+				for _, t := range def.lines {
+					if t[0] == "include" {
+						if inc := byPath[filepath.Clean(filepath.Join(filepath.Dir(def.path), t[1]))]; inc != nil && !inc.common {
+							h.apply(inc, pkg)
+						}
+					}
+				}
+				if def != fd && !def.common {
 					h.apply(def, pkg)
 				}
 				h.apply(fd, pkg)
@@ -411,6 +427,29 @@ func (h *Harness) findFunc(name string, pkg *ssa.Package, rel *fileDirectives) *
 func (h *Harness) findType(name string) types.Type {
 	if name == "nil" {
 		return nil
+	}
+	switch name {
+	case "int64":
+		return types.Typ[types.Int64]
+	case "int":
+		return types.Typ[types.Int]
+	case "uint64":
+		return types.Typ[types.Uint64]
+	case "string":
+		return types.Typ[types.String]
+	case "bool":
+		return types.Typ[types.Bool]
+	case "float64":
+		return types.Typ[types.Float64]
+	case "[]byte":
+		return types.NewSlice(types.Typ[types.Byte])
+	case "[]any":
+		return types.NewSlice(types.NewInterfaceType(nil, nil).Complete())
+	case "map[any]any":
+		a := types.NewInterfaceType(nil, nil).Complete()
+		return types.NewMap(a, a)
+	case "map[string]any":
+		return types.NewMap(types.Typ[types.String], types.NewInterfaceType(nil, nil).Complete())
 	}
 	ptr := 0
 	for strings.HasPrefix(name, "*") {
@@ -460,8 +499,13 @@ func (h *Harness) apply(fd *fileDirectives, pkg *ssa.Package) {
 			h.P.initAllow[t[1]] = true
 		case "zeroglobal":
 			h.P.zeroGlobals[t[1]] = true
-		case "slicelen":
+		case "setglobal":
+			h.P.setGlobals[t[1]] = h.findFunc(t[3], pkg, fd)
+		case "slicelen": // //verif:slicelen <name substring> <n> [<n in the thorough tier>]
 			n, _ := strconv.Atoi(t[2])
+			if len(t) > 3 && h.P.tier == "thorough" {
+				n, _ = strconv.Atoi(t[3])
+			}
 			h.sliceLens = append(h.sliceLens, substrInt{t[1], n})
 		case "nilable":
 			h.nilables = append(h.nilables, t[1])
@@ -552,6 +596,15 @@ func (P *Program) matchKnown(v *violation) *knownEntry {
 
 // ---- running one path
 
+var pathLog *os.File
+var pathLogMu sync.Mutex
+
+func init() {
+	if f := os.Getenv("GOSYMEX_PATHLOG"); f != "" {
+		pathLog, _ = os.Create(f)
+	}
+}
+
 type pathResult struct {
 	end string
 }
@@ -560,6 +613,12 @@ func (m *M) runPath(prefix []dec) (res pathResult) {
 	m.resetPath(prefix)
 	defer func() {
 		if r := recover(); r != nil {
+			if _, isEE := r.(engineErr); !isEE {
+				func() {
+					defer func() { recover() }()
+					m.flushAsserts()
+				}()
+			}
 			switch p := r.(type) {
 			case goPanic:
 				res.end = "panic"
@@ -588,6 +647,7 @@ func (m *M) runPath(prefix []dec) (res pathResult) {
 		m.call(rtp.Func("init"), nil)
 	}
 	m.call(H.fn, nil)
+	m.flushAsserts()
 	if len(m.sched.pending) > 0 {
 		m.report("leak", "GOROUTINE-LEAK", fmt.Sprintf("%d goroutine(s) still pending when the harness returned", len(m.sched.pending)), "", "", "")
 	}
@@ -656,6 +716,9 @@ func runHarness(P *Program, H *Harness, workers int) (*stats, string) {
 								panic(r)
 							}
 						}
+						if m.errStack != nil {
+							p.abort += "\n  ssa stack: " + strings.Join(lastN(m.errStack, 10), " > ")
+						}
 						if m.trace != nil {
 							p.abort += "\n  trace: " + strings.Join(lastN(m.trace, 12), "\n         ")
 						}
@@ -691,6 +754,11 @@ func runHarness(P *Program, H *Harness, workers int) (*stats, string) {
 				m.st.steps += m.steps
 				m.st.decisions += int64(len(m.taken))
 				m.st.pathEnds[classify(res.end)]++
+				if pathLog != nil {
+					pathLogMu.Lock()
+					fmt.Fprintln(pathLog, strings.Join(m.trace, ";"))
+					pathLogMu.Unlock()
+				}
 				if len(m.taken) > m.st.maxDepth {
 					m.st.maxDepth = len(m.taken)
 				}
